@@ -49,6 +49,9 @@ Loop:
 					tree.Fragments = append(tree.Fragments, value)
 				}
 				value = nil
+			} else if group != nil {
+				tree.Fragments = append(tree.Fragments, group)
+				group = nil
 			}
 			if t.Type == tokenEOF {
 				break Loop
